@@ -13,7 +13,7 @@ for d in sorted(glob.glob('/verif/seeded/*')):
     prev.append("- (%s) %s" % (", ".join(sorted(files)), m['needs_to_manifest'][:260]))
 extra="""
 
-ADDITIONAL CONSTRAINTS FOR THIS ROUND (round 10). Nine earlier rounds produced the seeded changes listed at the end (for all properties of this library). Do NOT reuse any of those mechanisms or close variants of them, and do NOT hide behind an arbitrary element-count threshold. The kind of change is your choice this round; what counts is that a careful human reviewer would plausibly approve the diff. Good places to look: two sites that cooperate (each edit harmless alone); an invariant that one function establishes and a distant one relies on; exported helpers that the library itself rarely calls; the interaction of two features (e.g. empty roots and row growth, undo and remembered leaves, translation between row layouts and deletion); a condition that is almost always true in the existing tests' histories (look at how the tests build their chains) but not in general; copy-paste asymmetries between the three implementations (Stump / Pollard / MapPollard) or between the 'add' and the 'undo add' code. Forests in your demonstration should involve at most ~100 real leaves and ~15 blocks. Never use `git stash` (the worktree shares its git directory with others); use `git diff > file` and `git checkout -- .`. HARD TIME LIMIT: finish within 22 minutes of wall-clock time; if after 14 minutes only one change survives the existing suite (run it at least twice: it has randomised tests), deliver that one alone and stop; do not run long mutation scans.
+ADDITIONAL CONSTRAINTS FOR THIS ROUND (round 10). Nine earlier rounds produced the seeded changes listed at the end (for all properties of this library). Do NOT reuse any of those mechanisms or close variants of them, and do NOT hide behind an arbitrary element-count threshold. What counts is that a careful human reviewer would plausibly approve the diff. Two kinds of change are wanted this round - if you deliver two changes, make them one of each kind. KIND 1, DATA-VALUE DEPENDENCE: the change misbehaves only for particular VALUES that are legal but that tests never use - leaf hashes with a special byte pattern (leading or trailing zero bytes, 0xff bytes, a hash that compares lower/higher than its sibling, hashes equal in their last bytes), a hash compared or keyed by a part of its bytes, particular target positions / leaf counts / addition counts / remember indexes (exactly a power of two, exactly one below it, zero, the same value twice where that is legal), a particular TotalRows, particular byte values in a serialized stream. (The all-zero hash itself means 'empty' throughout the library and is NOT a legal leaf; 12-byte prefix collisions between leaves are also out of scope.) KIND 2, THREE-FEATURE INTERACTIONS: the change is only visible in a history that combines at least three different features in a particular order - e.g. a forest started from bare roots, then an undo, then a prune; serialize/restore between a block and its undo; row growth, then undo below the growth, then a remembered leaf spent; Verify(remember) of a leaf, then a block that moves it, then Ingest of the same leaf again; a cached proof updated, undone and updated on another branch. Look at how the existing tests build their chains and pick an order of features they never produce. Forests in your demonstration should involve at most ~100 real leaves and ~15 blocks. Never use `git stash` (the worktree shares its git directory with others); use `git diff > file` and `git checkout -- .`. HARD TIME LIMIT: finish within 22 minutes of wall-clock time; if after 14 minutes only one change survives the existing suite (run it at least twice: it has randomised tests), deliver that one alone and stop; do not run long mutation scans.
 
 ALREADY USED (do not repeat):
 """ + "\n".join(prev)
